@@ -385,6 +385,20 @@ pub fn check(prop: &str, tier: &str) -> Option<Report> {
       let mut fams = multi_families(th, false, vec![Oracle::Functional]);
       // the same sequential orders produced by feedback: the subscriber's callback pushes the next event
       fams.extend(feedback_families(th, &[], vec![Oracle::Functional]).into_iter().skip(2));
+      // one input far ahead of the other: a cold input of 1100 items plays at subscribe time, the hot one
+      // follows item by item (a cap on what an operator keeps per input shows here: seed C11-k caps at 1024)
+      {
+        let long: Vec<Ev> = (1..=1100).map(Ev::n).chain(std::iter::once(Ev::C)).collect();
+        let mut acts = vec![Act::Sub(0)];
+        acts.extend((1..=1100).map(|k| Act::Emit(1, Ev::n(10_000 + k))));
+        acts.push(Act::Emit(1, Ev::C));
+        let wl = vec![
+          World { srcs: vec![SrcKind::Cold { scripts: vec![long.clone()], polite: true }, SrcKind::Hot], acts: acts.clone() },
+          World { srcs: vec![SrcKind::Hot, SrcKind::Cold { scripts: vec![long.clone()], polite: true }], acts: acts.iter().map(|a| if let Act::Emit(1, e) = a { Act::Emit(0, e.clone()) } else { a.clone() }).collect() },
+        ];
+        let pl: Vec<Node> = [Op::Zip, Op::Merge, Op::CombineLatest, Op::Concat].iter().map(|o| Node::opx(o.clone(), Node::Src(0), vec![Node::Src(1)])).collect();
+        fams.push((Family { name: "one input 1100 items ahead of the other".into(), pipelines: pl, worlds: Arc::new(wl), oracles: vec![Oracle::Functional] }, 1));
+      }
       // switch_on_next: no statement fixes its full function, its name fixes one thing - after the
       // switch nothing of the first input is delivered. Sequential interleavings and feedback.
       {
